@@ -671,11 +671,19 @@ repsLoop:
 		}
 
 		var counter int
+		counted := []interop.PublicKey{}
 		for _, sig := range sigs[i] {
 			pubsI := Nodes(cid, uint8(i))
+		pubsLoop:
 			for iterator.Next(pubsI) {
 				pub := iterator.Value(pubsI).(interop.PublicKey)
+				for _, c := range counted {
+					if pub.Equals(c) {
+						continue pubsLoop // every member counts once
+					}
+				}
 				if crypto.VerifyWithECDsa(msg, pub, sig, crypto.Secp256r1Sha256) {
+					counted = append(counted, pub)
 					counter++
 					break
 				}
